@@ -28,6 +28,11 @@ SPEC = dict(
          'mode 0777) planted at c<n>/c<n>/f where a resolution against the directory of the executable would look; and by a '
          'BARE command name with a symlink of that name in the working directory and no / a hostile / a root-controlled / an '
          'only file of that name in a private directory in front of $PATH. Decoys record their start like every script. '
+         'Names with `..` (also `.`, `//`) directly after a SYMLINKED directory (<case>/app/current/../bin/f with current -> '
+         '<case>/user/releases/v1, absolute and relative): the real file stands where the kernel, os/exec and viper resolve the '
+         'name (user/releases/bin/f), a decoy with the opposite attributes at the lexically cleaned place (app/bin/f): hostile '
+         'real + root-controlled decoy, group-writable real + root decoy, root real + hostile decoy, no decoy; 6 apis and '
+         'Validate with 4 configuration variants. '
          'EVERY start of a script appends its id and stat -L of its own path to a marker file, so the observation is the list '
          'of starts inside one call with the attributes at each start. Non-trivial = at least one call on a path that leads to an '
          'existing file; distinct = distinct (operations, observations) terms.',
